@@ -168,8 +168,16 @@ def body_reactor_req(env):
     g, _ = dassh.core.calculate_min_dz(r.core, r.inlet_temp, t_out)
     if g is not None:
         reqs.append(('inter-assembly gap', float(g)))
+    import dassh.region_rodded as rrm_
+    import dassh.region_unrodded as rum_
+    for i, a in enumerate(r.assemblies):
+        # region by region with the region-level criteria (not through the assembly-level aggregation used by the set-up)
+        for k, reg in enumerate(a.region):
+            f = rrm_.calculate_min_dz if reg.is_rodded else rum_.calculate_min_dz
+            v, _ = f(reg, r.inlet_temp, a._estimated_T_out, r._is_adiabatic)
+            reqs.append(('assembly %d region %d (%s)' % (i, k, reg.name), float(v)))
     for i, v in enumerate(r.min_dz['dz'][:len(r.assemblies)]):
-        reqs.append(('assembly/region entry %d' % i, float(v)))
+        reqs.append(('assembly entry %d as recorded' % i, float(v)))
     if env.params['gap_model'] == 'flow':
         env.holds('the gap model with flowing coolant has a step requirement', g is not None)
     lim = min(v for _, v in reqs)
@@ -199,7 +207,8 @@ def instances(tier):
         inst.append(dict(label='merge[n=%d]' % n, body=body_merge, params={'n': n}, max_paths=3000))
     for layout, gm, bf, setup in (('two-a2-a3', 'flow', 0.05, ()), ('two-a2-a3', 'flow', 0.0005, ()), ('seven-mixed', 'flow', 0.001, ()),
                                   ('three-a3-dd-u6', 'flow', 0.0005, ('axial_mesh_size = 0.004',)), ('two-a2-a3', 'no_flow', 0.05, ()),
-                                  ('two-a2-a3', 'duct_average', 0.05, ())):
+                                  ('two-a2-a3', 'duct_average', 0.05, ()), ('two-au-a2', 'none', 0.05, ()), ('three-al-au-a2', 'none', 0.05, ()),
+                                  ('two-au-a2', 'no_flow', 0.05, ())):
         inst.append(dict(label='reactor-requirement[%s,gap=%s,bypass=%g%s]' % (layout, gm, bf, ',user step' if setup else ''), body=body_reactor_req,
                          params={'layout': layout, 'gap_model': gm, 'bypass': bf, 'setup': setup, 'gap_limiting': gm == 'flow' and bf < 0.01}, check_vacuity=False))
     return inst
